@@ -22,6 +22,9 @@ let next_ident c =
 let next_file c =
   let i = next_ident c in
   let counts = next_list c (fun c -> let k = next_bytes c in let v = next_n c in (k, v)) in
+  (* does the implementation's parser read the written file as the reference reading does *)
+  if not (next_bool c) then
+    diff "count-file-parse" ~model:"the counters written" ~impl:("another reading / refused: file of " ^ String.escaped (string_of_bytes i.id_program));
   { f_ident = i; f_counts = counts }
 let next_map c = next_list c (fun c -> let k = next_bytes c in let v = next_z c in (k, v))
 let next_report c =
@@ -225,6 +228,14 @@ let handle kind c =
           end)
         files
     done
+  | "hang" ->
+    let i = next_int c in
+    prop "hang" (Printf.sprintf "case number %d of this run did not return within the watchdog's time" (i + 1))
+  | "fds" ->
+    let n0 = next_int c in
+    let n1 = next_int c in
+    if n1 > n0 + 16 then
+      prop "fd-leak" (Printf.sprintf "%d file descriptors open before the run of all cases, %d after" n0 n1)
   | k -> diff "unknown-case-kind" ~model:k ~impl:"-"
 
 let () = run_file Sys.argv.(1) handle
